@@ -12,6 +12,7 @@ exposure up to target depletion, exact 2^(-t/T) rest decay, omission of fast /
 epithermal terms, natural element = abundance-weighted sum) are checked on top,
 through `activity()` and through `Sample.calculate_activation`.
 """
+from .. import subtable
 from decimal import Decimal as D
 from fractions import Fraction
 import math
@@ -21,6 +22,8 @@ from hypothesis import strategies as st
 from ..runner import Violation, lib_frame
 from .. import refcalc_activation as ra
 
+AMBIENT_SKIP = ("decimal",)      # the oracle computes in the thread's decimal context throughout
+PRISTINE_TASKS = ("route-",)     # the initialisation route is the first periodictable action of the process
 PROPERTY = "C14"
 RULE = ("rows: Hypothesis draws an environment (fluence 1e2..1e16, Cd ratio in {0} u (0,1) u [1,1e3], fast ratio in "
         "{0} u [1e-3,1e3], exposure 1e-3..1e4 h, 1..6 rest times in {0} u [1e-3,1e5] h, mass 1e-6..1e3 g, a second mass "
@@ -121,7 +124,7 @@ def perform_route(route):
         from periodictable import core, mass, density
         if route == "private-after-public":
             table.Au[197].neutron_activation
-        T = core.PeriodicTable("c14-" + route)
+        T = subtable.new("c14-" + route)
         mass.init(T)
         density.init(T)     # a one-element formula takes its density from the element
         activation.init(T, reload=(route == "private-reload"))
